@@ -113,6 +113,13 @@ def select(groups, seeds, atomic, split, quick: bool, rng: random.Random) -> lis
             for r in range(3):
                 rot = [g[(r + k) % 3] for k in range(4)]
                 add("atomic", sd, [["t", s] for s in rot])
+        # a Program that is kept and emitted again and again, with other scripts transpiled in between
+        for k, sd in enumerate(cover[:2]):
+            u = list(dict.fromkeys(g))
+            s0, s1, s2 = u[k % len(u)], u[(k + 1) % len(u)], u[(k + 2) % len(u)]
+            plan = [["p", s0], ["E", s0], ["t", s1], ["E", s0]]
+            plan += ([["p", s2], ["E", s2], ["E", s0], ["e", s2]] if s2 != s0 else [["E", s0]]) + [["e", s0]]
+            add("reemit", sd, plan)
         pool = [b for sd in seeds for b in by_a.get((sub, sd), []) if len(b["h"]) >= 2]
         for b in rng.sample(pool, min(len(pool), 8 if quick else 100)):
             add("atomic", b["seed"], [["t", s] for _k, s in b["h"]])
@@ -159,7 +166,7 @@ def make_traces(cs, groups, jobs, events, ref_events) -> list[dict]:
 
 
 def _slim(e: dict) -> dict:
-    return {k: v for k, v in e.items() if k in ("e", "p", "s", "seed", "d", "m", "c", "same", "thr")}
+    return {k: v for k, v in e.items() if k in ("e", "p", "s", "seed", "d", "m", "c", "same", "thr", "keep")}
 
 
 def run_and_validate(cs, groups, jobs, run=None, workers: int = 8):
